@@ -190,6 +190,12 @@ func (e *env) genC07() *nmOp {
 		if r.IntN(3) == 0 {
 			addrs = append(addrs, "grpc://second:1")
 		}
+		if r.IntN(6) == 0 {
+			// a node announced without any address is a candidate like every other (seeded change C07-8: "no
+			// addresses" read as "no record")
+			addrs = []string{}
+			e.b.Hit("node-announced-without-addresses")
+		}
 		attrs := map[string]string{"Capacity": fmt.Sprint(e.ver), "ver": fmt.Sprint(e.ver)}
 		o := &nmOp{kind: "addNode", args: []any{node2Item(addrs, attrs, key, state)}, signers: s, sdesc: sd, class: fmt.Sprintf("%s/st%d/len%d", e.presence(ph), state, len(key))}
 		if nw && aw && state == 1 && len(key) == 33 {
